@@ -136,6 +136,15 @@ pub enum N {
     WaitTrap {
         id: u32,
     },
+    /// a pipeline (no job control) whose first command stops itself and is
+    /// continued later by a helper job: the shell goes on waiting for it - a
+    /// stopped command has not finished - and reaps it when it has exited:
+    /// `{ nap 5; read p <pf; kill -s CONT $p; } & h=$!; { mypid >pf; selfstop; echo W; exit S; } | relay 3; echo "?=$?"; wait $h`
+    StopPipe {
+        id: u32,
+        status: u8,
+        word: String,
+    },
     /// `eval 'BODY'` or `command eval 'BODY'`: the commands run in the current
     /// shell, inside a built-in (`command` is not marked as handling signals
     /// itself: in an interactive shell the children are awaited next to the
@@ -515,6 +524,16 @@ pub fn generate(rng: &mut Rng, tier: Tier) -> Case {
     let pipefail = g.rng.below(3) == 0;
     let dash_c = g.rng.bool();
     let trapterm = !sigpar && g.rng.below(3) == 0;
+    let job_control = !interactive && g.rng.below(6) == 0;
+    if !interactive && !job_control && !sigpar && g.rng.below(6) == 0 {
+        g.next_id += 1;
+        let (id, word) = (g.next_id, g.word());
+        nodes.push(N::StopPipe {
+            id,
+            status: *g.rng.pick(&[0u8, 5, 9]),
+            word,
+        });
+    }
     Case {
         nodes,
         pipefail,
@@ -524,7 +543,7 @@ pub fn generate(rng: &mut Rng, tier: Tier) -> Case {
         sigpar,
         trapterm,
         interactive,
-        job_control: !interactive && g.rng.below(6) == 0,
+        job_control,
         khist: None,
     }
 }
@@ -663,6 +682,9 @@ fn render(n: &N, out: &mut String, _sep: &str) {
         N::Kp => out.push_str("kill -s USR1 $$"),
         N::WaitTrap { id } => out.push_str(&format!(
             "trap 'kill -s KILL $w_{id}' USR1; {{ nap 100000; }} & w_{id}=$!; {{ nap 2; kill -s USR1 $$; }} & s_{id}=$!; {{ nap 2; exit 0; }} & q_{id}=$!; wait $w_{id}; echo \"?=$(($?>128))\"; wait $w_{id}; echo \"?=$?\"; wait $s_{id} $q_{id}; trap - USR1"
+        )),
+        N::StopPipe { id, status, word } => out.push_str(&format!(
+            "{{ nap 5; read p <pf_{id}; kill -s CONT $p; }} & h_{id}=$!; {{ mypid >pf_{id}; selfstop; echo {word}; exit {status}; }} | relay 3; echo \"?=$?\"; wait $h_{id}"
         )),
         N::EarlyExitPipe { n, status, word } => out.push_str(&format!("gen {n} 1 512 0 0 | {{ echo {word}; rc {status}; }}")),
         N::BgAndOr { id, first, word } => out.push_str(&format!(
@@ -899,6 +921,11 @@ fn eval(n: &N, cx: &mut Ctx) {
             cx.out.push(word.clone());
             cx.status = 0;
         }
+        N::StopPipe { status, word, .. } => {
+            cx.out.push(word.clone());
+            cx.out.push(format!("?={}", if cx.pipefail { *status } else { 0 }));
+            cx.status = 0;
+        }
         N::EarlyExitPipe { status, word, .. } => {
             cx.out.push(word.clone());
             // the writer cannot finish: it fails (status 1) once the reader is gone
@@ -960,7 +987,9 @@ pub fn expect(c: &Case) -> Expect {
     }
     Expect {
         stdout,
-        status: cx.status,
+        // (the script ends with `cat fds_final`, whatever the program's last
+        // status was - also in a program shortened by the minimiser)
+        status: 0,
         unwaited: cx.unwaited,
     }
 }
@@ -1637,7 +1666,10 @@ impl Prop for C13 {
                 break;
             }
         }
-        if first_failure.is_none() {
+        // (a program whose progress depends on a helper job continuing a
+        // stopped command is not run with faults that can take the helper away)
+        let fault_runs = !case.nodes.iter().any(|n| matches!(n, N::StopPipe { .. }));
+        if first_failure.is_none() && fault_runs {
             // fork failure (EAGAIN) at up to three seeded positions: the shell
             // must still terminate, never wait wrongly, never act after death
             let forks = {
@@ -1662,7 +1694,7 @@ impl Prop for C13 {
                 }
             }
         }
-        if first_failure.is_none() {
+        if first_failure.is_none() && fault_runs {
             // crash injection: children are killed (SIGKILL from outside) at
             // seeded instants. Output is no longer predictable; the shell must
             // still terminate, report true statuses and never act after death.
@@ -1687,7 +1719,7 @@ impl Prop for C13 {
                 }
             }
         }
-        if first_failure.is_none() {
+        if first_failure.is_none() && fault_runs {
             // descriptor exhaustion (EMFILE) at up to three seeded allocation
             // positions of any process: the shell still terminates, waits
             // truthfully, and its own descriptor table at the end is the one
